@@ -25,7 +25,7 @@ type Action struct {
 func (a Action) String() string {
 	s := fmt.Sprintf("%s(%d", a.K, a.A)
 	switch a.K {
-	case "G", "P", "J", "Start", "FF":
+	case "G", "P", "J", "Start", "FF", "IX":
 		s += fmt.Sprintf(",%d", a.B)
 	}
 	if a.Lim > 0 {
@@ -109,6 +109,8 @@ func Do(c *sim.Cluster, a Action) error {
 		return c.RequestJoin(a.A, a.B)
 	case "L":
 		return c.RequestLeave(a.A)
+	case "IX": // unknown-type internal transaction concerning key B, handed to validator A
+		return c.RequestUnknown(a.B, a.A)
 	case "S":
 		return c.SetSilent(a.A, true)
 	case "H":
